@@ -173,55 +173,23 @@ Definition steps_of_src (m : string) (ss : list dstep) : list dstep :=
 
 (* ------------------------------------------------------------------------------------ *)
 (* Hand-written summary of jpeg2000.Decoder: Decode followed by GetPixelData (what every
-   codec does with it), read from /repo/jpeg2000/decoder.go.  The src tag is the method
-   called directly from Decode in which the write happens (callees folded in). *)
-Definition decoder_cfg : list field := ["blockDecoderFactory"; "roi"; "resilient"; "strict"].
+   codec does with it), read from /repo/jpeg2000/decoder.go AFTER the repair of finding F21
+   (Decode now clears mctInverse, mctOffsets, bindings, roiMasks and a stream-derived ROI
+   configuration right after parsing).  The src tag is the method called directly from Decode
+   in which the write happens (callees folded in).
+
+   Representation: the Go pair (roiConfig, roiFromStream) is modelled as two abstract fields,
+       roiConfig  = what the user stored with SetROIConfig   (Go: roiConfig when !roiFromStream)
+       streamROI  = what extractROIFromCOM parsed             (Go: roiConfig when  roiFromStream)
+   `if d.roiFromStream { d.roiConfig, d.roiFromStream = nil, false }` is `reset streamROI`;
+   extractROIFromCOM leaves a non-empty user configuration alone and otherwise sets the stream
+   part; resolveROI uses whichever is present.  (An empty user configuration counts as none,
+   as every use in decoder.go is guarded by IsEmpty.)  CtrProofsFacts.v checks on the
+   regenerated events that roiConfig and roiFromStream are always assigned together inside
+   Decode's phases, which is what makes the pair representable this way. *)
+Definition decoder_cfg : list field := ["blockDecoderFactory"; "roi"; "resilient"; "strict"; "roiConfig"].
 
 Definition decoder_decode : call := mkCall "Decode;GetPixelData"
-  [ SAssign "Decode" "cs" "codestream.Parse" [];
-    SAssign "extractImageParameters" "width" "siz.width" ["cs"];
-    SAssign "extractImageParameters" "height" "siz.height" ["cs"];
-    SAssign "extractImageParameters" "components" "siz.csiz" ["cs"];
-    SAssign "extractImageParameters" "bitDepth" "siz.depth" ["cs"; "components"];
-    SAssign "extractImageParameters" "isSigned" "siz.signed" ["cs"; "components"];
-    SAssign "captureROIShifts" "roiShifts" "rgn.shifts" ["cs"; "components"];
-    SAssign "captureROIShifts" "roiSrgn" "rgn.styles" ["cs"; "components"];
-    (* only set when a JP2ROI COM segment is present and no non-empty config is there yet;
-       otherwise whatever an earlier SetROIConfig or an earlier Decode left is kept *)
-    SAssign "extractROIFromCOM" "roiConfig" "com.roi_or_keep" ["cs"; "roiConfig"];
-    (* only ever set (MCT segments without MCC, or JP2MCT COM); never cleared; an existing value
-       also short-circuits the COM fallback *)
-    SAssign "extractMCTFromMarkers" "mctInverse" "mct.inverse_or_keep" ["cs"; "components"; "mctInverse"; "mctOffsets"];
-    SAssign "extractMCTFromMarkers" "mctOffsets" "mct.offsets_or_keep" ["cs"; "components"; "mctOffsets"];
-    (* d.bindings = append(d.bindings, b) for every MCC stage: never reset *)
-    SAppend "extractBindings" "bindings" "mcc.bindings" ["cs"];
-    SReset "resolveROI" "RoiRects";
-    SAssign "resolveROI" "roiShifts" "roi.shifts_or_keep" ["roiConfig"; "roi"; "width"; "height"; "components"; "roiShifts"];
-    SAssign "resolveROI" "RoiRects" "roi.rects_or_keep" ["roiConfig"; "roi"; "width"; "height"; "components"; "RoiRects"];
-    (* roiMasks is written only inside the two ROI branches and never cleared *)
-    SAssign "resolveROI" "roiMasks" "roi.masks_or_keep" ["roiConfig"; "roi"; "width"; "height"; "components"; "roiMasks"];
-    SAssign "resolveROI" "roiSrgn" "roi.styles_or_keep" ["roiConfig"; "roi"; "components"; "roiSrgn"];
-    SAssign "decodeTiles" "data" "tiles.decode"
-      ["cs"; "components"; "roiShifts"; "roiSrgn"; "RoiRects"; "roiMasks"; "blockDecoderFactory"];
-    SAssign "decodeTiles" "data" "inverse_mct"
-      ["data"; "bindings"; "mctInverse"; "mctOffsets"; "cs"; "components"; "width"; "height"];
-    SAssign "decodeTiles" "data" "inverse_dc_shift" ["data"; "components"; "bitDepth"; "isSigned"]
-  ]
-  "GetPixelData" ["data"; "width"; "height"; "components"; "bitDepth"; "isSigned"].
-
-(* the setters, as calls that may be interleaved in a history *)
-Definition decoder_setters : list call :=
-  [ mkCall "SetROI" [SAssign "SetROI" "roi" "arg" []] "void" [];
-    mkCall "SetROIConfig" [SAssign "SetROIConfig" "roiConfig" "arg" []] "void" [];
-    mkCall "SetBlockDecoderFactory" [SAssign "SetBlockDecoderFactory" "blockDecoderFactory" "arg" []] "void" [];
-    mkCall "SetResilient" [SAssign "SetResilient" "resilient" "arg" []] "void" [];
-    mkCall "SetStrict" [SAssign "SetStrict" "strict" "arg" [];
-                        SAssign "SetStrict" "resilient" "arg_or_keep" ["resilient"]] "void" [] ].
-
-(* The repaired Decoder (suggested fix: reset stream-derived state at the top of Decode, and
-   keep the user-supplied ROI configuration apart from the one parsed from the stream). *)
-Definition decoder_cfg_fixed : list field := decoder_cfg ++ ["roiConfig"].
-Definition decoder_decode_fixed : call := mkCall "Decode;GetPixelData (repaired)"
   [ SAssign "Decode" "cs" "codestream.Parse" [];
     SReset "Decode" "mctInverse"; SReset "Decode" "mctOffsets"; SReset "Decode" "bindings";
     SReset "Decode" "roiMasks"; SReset "Decode" "streamROI";
@@ -232,9 +200,12 @@ Definition decoder_decode_fixed : call := mkCall "Decode;GetPixelData (repaired)
     SAssign "extractImageParameters" "isSigned" "siz.signed" ["cs"; "components"];
     SAssign "captureROIShifts" "roiShifts" "rgn.shifts" ["cs"; "components"];
     SAssign "captureROIShifts" "roiSrgn" "rgn.styles" ["cs"; "components"];
+    (* set when a JP2ROI COM segment is present and the user gave no configuration *)
     SAssign "extractROIFromCOM" "streamROI" "com.roi_or_keep" ["cs"; "roiConfig"; "streamROI"];
+    (* set from MCT segments without MCC, or a JP2MCT COM; otherwise the (reset) value stays *)
     SAssign "extractMCTFromMarkers" "mctInverse" "mct.inverse_or_keep" ["cs"; "components"; "mctInverse"; "mctOffsets"];
     SAssign "extractMCTFromMarkers" "mctOffsets" "mct.offsets_or_keep" ["cs"; "components"; "mctOffsets"];
+    (* d.bindings = append(d.bindings, b) for every MCC stage, onto the list reset above *)
     SAppend "extractBindings" "bindings" "mcc.bindings" ["cs"];
     SReset "resolveROI" "RoiRects";
     SAssign "resolveROI" "roiShifts" "roi.shifts_or_keep" ["roiConfig"; "streamROI"; "roi"; "width"; "height"; "components"; "roiShifts"];
@@ -249,16 +220,76 @@ Definition decoder_decode_fixed : call := mkCall "Decode;GetPixelData (repaired)
   ]
   "GetPixelData" ["data"; "width"; "height"; "components"; "bitDepth"; "isSigned"].
 
+(* the setters, as calls that may be interleaved in a history (they change the configuration) *)
+Definition decoder_setters : list call :=
+  [ mkCall "SetROI" [SAssign "SetROI" "roi" "arg" []] "void" [];
+    mkCall "SetROIConfig" [SAssign "SetROIConfig" "roiConfig" "arg" [];
+                           SReset "SetROIConfig" "streamROI"] "void" [];
+    mkCall "SetBlockDecoderFactory" [SAssign "SetBlockDecoderFactory" "blockDecoderFactory" "arg" []] "void" [];
+    mkCall "SetResilient" [SAssign "SetResilient" "resilient" "arg" []] "void" [];
+    mkCall "SetStrict" [SAssign "SetStrict" "strict" "arg" [];
+                        SAssign "SetStrict" "resilient" "arg_or_keep" ["resilient"]] "void" [] ].
+
+(* Go field name -> abstract field names, for comparing the regenerated facts with the summary *)
+Definition decoder_wmap (f : field) : list field :=
+  if String.eqb f "roiConfig" then ["streamROI"]            (* inside Decode only the stream part is assigned *)
+  else if String.eqb f "roiFromStream" then ["streamROI"] else [f].
+Definition decoder_rmap (f : field) : list field :=
+  if String.eqb f "roiConfig" then ["roiConfig"; "streamROI"]
+  else if String.eqb f "roiFromStream" then ["streamROI"] else [f].
+Definition decoder_setter_map (f : field) : list field :=
+  if String.eqb f "roiFromStream" then ["streamROI"] else [f].
+
+(* HISTORICAL (finding F21, repaired in /repo by "fix: jpeg2000.Decoder carries MCT bindings ..."):
+   the Decoder as it was — nothing cleared at the top of Decode, the ROI parsed from one stream
+   kept for the next.  Kept as a model-only example of a summary the criterion rejects. *)
+Definition decoder_cfg_unrepaired : list field := ["blockDecoderFactory"; "roi"; "resilient"; "strict"].
+Definition decoder_decode_unrepaired : call := mkCall "Decode;GetPixelData (before the repair)"
+  [ SAssign "Decode" "cs" "codestream.Parse" [];
+    SAssign "extractImageParameters" "width" "siz.width" ["cs"];
+    SAssign "extractImageParameters" "height" "siz.height" ["cs"];
+    SAssign "extractImageParameters" "components" "siz.csiz" ["cs"];
+    SAssign "extractImageParameters" "bitDepth" "siz.depth" ["cs"; "components"];
+    SAssign "extractImageParameters" "isSigned" "siz.signed" ["cs"; "components"];
+    SAssign "captureROIShifts" "roiShifts" "rgn.shifts" ["cs"; "components"];
+    SAssign "captureROIShifts" "roiSrgn" "rgn.styles" ["cs"; "components"];
+    SAssign "extractROIFromCOM" "roiConfig" "com.roi_or_keep" ["cs"; "roiConfig"];
+    SAssign "extractMCTFromMarkers" "mctInverse" "mct.inverse_or_keep" ["cs"; "components"; "mctInverse"; "mctOffsets"];
+    SAssign "extractMCTFromMarkers" "mctOffsets" "mct.offsets_or_keep" ["cs"; "components"; "mctOffsets"];
+    SAppend "extractBindings" "bindings" "mcc.bindings" ["cs"];
+    SReset "resolveROI" "RoiRects";
+    SAssign "resolveROI" "roiShifts" "roi.shifts_or_keep" ["roiConfig"; "roi"; "width"; "height"; "components"; "roiShifts"];
+    SAssign "resolveROI" "RoiRects" "roi.rects_or_keep" ["roiConfig"; "roi"; "width"; "height"; "components"; "RoiRects"];
+    SAssign "resolveROI" "roiMasks" "roi.masks_or_keep" ["roiConfig"; "roi"; "width"; "height"; "components"; "roiMasks"];
+    SAssign "resolveROI" "roiSrgn" "roi.styles_or_keep" ["roiConfig"; "roi"; "components"; "roiSrgn"];
+    SAssign "decodeTiles" "data" "tiles.decode"
+      ["cs"; "components"; "roiShifts"; "roiSrgn"; "RoiRects"; "roiMasks"; "blockDecoderFactory"];
+    SAssign "decodeTiles" "data" "inverse_mct"
+      ["data"; "bindings"; "mctInverse"; "mctOffsets"; "cs"; "components"; "width"; "height"];
+    SAssign "decodeTiles" "data" "inverse_dc_shift" ["data"; "components"; "bitDepth"; "isSigned"]
+  ]
+  "GetPixelData" ["data"; "width"; "height"; "components"; "bitDepth"; "isSigned"].
+
 (* ------------------------------------------------------------------------------------ *)
-(* Hand-written summary of jpeg2000.Encoder.Encode, read from /repo/jpeg2000/encoder.go.
-   params (a pointer to EncodeParams) is the configuration: set by NewEncoder, read everywhere. *)
+(* Hand-written summary of jpeg2000.Encoder.Encode, read from /repo/jpeg2000/encoder.go AFTER
+   the repair of finding F25 (Encode and EncodeComponents set qcdReady = false, so the
+   quantisation tables are recomputed from the current parameters on every call).
+   params (a pointer to EncodeParams) is the configuration: set by NewEncoder, read everywhere.
+
+   quantizationInfo() is `if e.qcdReady { return the four stored values }` else compute them
+   from params, store them, set qcdReady.  The four value fields are read nowhere else and only
+   under that flag (checked on the regenerated events in CtrProofsFacts.v), so clearing the
+   flag invalidates all five: the reset below names them all. *)
 Definition encoder_cfg : list field := ["params"].
+Definition qcd_group : list field := ["qcdReady"; "qcdStyle"; "qcdGuard"; "qcdExpn"; "qcdSteps"].
 
 Definition encoder_encode : call := mkCall "Encode"
   [ (* validateParams reads params only *)
     SAssign "convertPixelData" "data" "pixels_to_components" ["params"];
     SAssign "applyDCLevelShift" "data" "dc_shift" ["data"; "params"];
     SReset "Encode" "irreversibleMCTData";
+    SReset "Encode" "qcdReady"; SReset "Encode" "qcdStyle"; SReset "Encode" "qcdGuard";
+    SReset "Encode" "qcdExpn"; SReset "Encode" "qcdSteps";
     SAssign "applyMCTBindings" "data" "mct_bindings_or_keep" ["data"; "params"];
     SAssign "applyCustomMCT" "data" "custom_mct_or_keep" ["data"; "params"];
     SAssign "Encode" "data" "rct_or_keep" ["data"; "params"];
@@ -270,14 +301,12 @@ Definition encoder_encode : call := mkCall "Encode"
     SAssign "buildCodestream" "RoiRects" "roi.rects_or_keep" ["params"; "RoiRects"];
     SAssign "buildCodestream" "roiStyles" "roi.styles_or_keep" ["params"; "roiStyles"];
     SAssign "buildCodestream" "roiMasks" "roi.masks_or_keep" ["params"; "roiMasks"];
-    (* quantizationInfo(): computed from params on first use, then served from the object.
-       The five fields are written together under the single flag qcdReady; modelling each as
-       its own cache is equivalent on every state the code can reach. *)
-    SMemo "buildCodestream" "qcdReady" "quant.ready" ["params"];
-    SMemo "buildCodestream" "qcdStyle" "quant.style" ["params"];
-    SMemo "buildCodestream" "qcdGuard" "quant.guard" ["params"];
-    SMemo "buildCodestream" "qcdExpn" "quant.expn" ["params"];
-    SMemo "buildCodestream" "qcdSteps" "quant.steps" ["params"];
+    (* first quantizationInfo() of the call computes, the later ones of the same call read back *)
+    SAssign "buildCodestream" "qcdReady" "quant.ready" ["params"; "qcdReady"];
+    SAssign "buildCodestream" "qcdStyle" "quant.style" ["params"; "qcdReady"; "qcdStyle"];
+    SAssign "buildCodestream" "qcdGuard" "quant.guard" ["params"; "qcdReady"; "qcdGuard"];
+    SAssign "buildCodestream" "qcdExpn" "quant.expn" ["params"; "qcdReady"; "qcdExpn"];
+    SAssign "buildCodestream" "qcdSteps" "quant.steps" ["params"; "qcdReady"; "qcdSteps"];
     SAssign "buildCodestream" "openJPEGMainHeaderBytes" "main_header_len"
       ["params"; "roiShifts"; "RoiRects"; "roiStyles"; "roiMasks"; "qcdReady"; "qcdStyle"; "qcdGuard"; "qcdExpn"; "qcdSteps"];
     SAssign "buildCodestream" "openJPEGNumTiles" "num_tiles" ["params"]
@@ -285,6 +314,23 @@ Definition encoder_encode : call := mkCall "Encode"
   "codestream"
   ["params"; "data"; "irreversibleMCTData"; "roiShifts"; "RoiRects"; "roiStyles"; "roiMasks";
    "qcdReady"; "qcdStyle"; "qcdGuard"; "qcdExpn"; "qcdSteps"; "openJPEGMainHeaderBytes"; "openJPEGNumTiles"].
+
+(* a caller changing the EncodeParams the encoder holds a pointer to, between two calls *)
+Definition encoder_set_params : call :=
+  mkCall "*params = ..." [SAssign "caller" "params" "new_params" []] "void" [].
+
+(* HISTORICAL (finding F25): the encoder before the repair, the quantisation tables computed once
+   per object (SMemo) and never invalidated.  Model-only example for the SMemo step and for the
+   hypothesis "the configuration is not written during the history". *)
+Definition encoder_encode_unrepaired : call := mkCall "Encode (before the repair)"
+  [ SAssign "convertPixelData" "data" "pixels_to_components" ["params"];
+    SAssign "applyDCLevelShift" "data" "dc_shift" ["data"; "params"];
+    SReset "Encode" "irreversibleMCTData";
+    SAssign "Encode" "data" "mct_or_keep" ["data"; "params"];
+    SMemo "buildCodestream" "qcdReady" "quant.ready" ["params"];
+    SMemo "buildCodestream" "qcdSteps" "quant.steps" ["params"]
+  ]
+  "codestream" ["params"; "data"; "qcdReady"; "qcdSteps"].
 
 (* ------------------------------------------------------------------------------------ *)
 (* Analysis of the regenerated event lists (Gen/Facts_gen.v: method_events), executable.
